@@ -17,6 +17,7 @@ import (
 
 	"github.com/sourcegraph/zoekt"
 	"github.com/sourcegraph/zoekt/index"
+	"github.com/sourcegraph/zoekt/internal/syntaxutil"
 	"github.com/sourcegraph/zoekt/internal/verifkit/kit"
 	"github.com/sourcegraph/zoekt/query"
 )
@@ -190,6 +191,14 @@ func runC08(rec *kit.Recorder, c c08Case) error {
 	// literal · empty match: cannot be distilled into a substring query
 	qb := &query.Regexp{Regexp: &syntax.Regexp{Op: syntax.OpConcat, Sub: []*syntax.Regexp{
 		{Op: syntax.OpLiteral, Rune: []rune(c.Pattern)}, {Op: syntax.OpEmptyMatch}}}, CaseSensitive: false, Content: true}
+	// a second regexp form: one literal per rune, which yields no trigrams, so
+	// that the regexp engine alone decides (independent of the index lookups
+	// the substring form relies on)
+	var perRune []*syntax.Regexp
+	for _, r := range c.Pattern {
+		perRune = append(perRune, &syntax.Regexp{Op: syntax.OpLiteral, Rune: []rune{r}})
+	}
+	qc := &query.Regexp{Regexp: &syntax.Regexp{Op: syntax.OpConcat, Sub: perRune}, CaseSensitive: false, Content: true}
 	ra, err := searchRanges(s, qa, c.Chunk)
 	if err != nil {
 		return kit.Fail("search-error", "substring form: %v", err)
@@ -197,6 +206,10 @@ func runC08(rec *kit.Recorder, c c08Case) error {
 	rb, err := searchRanges(s, qb, c.Chunk)
 	if err != nil {
 		return kit.Fail("search-error", "regexp form: %v", err)
+	}
+	rc, err := searchRanges(s, qc, c.Chunk)
+	if err != nil {
+		return kit.Fail("search-error", "per-rune regexp form: %v", err)
 	}
 
 	// simple-fold reference (says which side is wrong) and stdlib engine
@@ -240,16 +253,24 @@ func runC08(rec *kit.Recorder, c c08Case) error {
 	rec.Sample(c, nontrivial)
 
 	sa, sb, sr, ss := fmt.Sprint(ra), fmt.Sprint(rb), fmt.Sprint(ref), fmt.Sprint(stdR)
+	disagreeing := qb
+	if sa == sb {
+		// the first regexp form agrees; judge the per-rune form the same way
+		sb = fmt.Sprint(rc)
+		disagreeing = qc
+	}
 	if sa == sb {
 		return nil
 	}
 	// they disagree: that is the violation; classify by comparing with the reference
 	known := ""
+	engineSays := ""
 	if sa == sr && ss == sr && sb != sr {
 		// zoekt's substring form, simple folding and the standard library's
 		// engine agree. Confirm that the regexp engine dependency itself
 		// deviates from the standard library on this very pattern and text.
-		gre, err := gregexp.Compile("(?i)" + regexp.QuoteMeta(c.Pattern) + "(?:)")
+		// the very expression zoekt hands to the engine for this form
+		gre, err := gregexp.Compile("(?i)" + syntaxutil.RegexpString(disagreeing.Regexp))
 		if err == nil {
 			deviates := false
 			engine := fileRanges{}
@@ -258,6 +279,25 @@ func runC08(rec *kit.Recorder, c c08Case) error {
 				ms := gre.FindAllIndex(d.Content, -1)
 				if fmt.Sprint(ms) != fmt.Sprint(std.FindAllIndex(d.Content, -1)) {
 					deviates = true
+				}
+				if disagreeing == qc {
+					// zoekt additionally requires, for every rune of three or
+					// more bytes, that the engine finds that rune alone
+					// (a literal of >= 3 bytes becomes a filter of its own,
+					// evaluated as the regexp (?i)<rune>)
+					for _, r := range c.Pattern {
+						if len(string(r)) < 3 {
+							continue
+						}
+						one := "(?i)" + regexp.QuoteMeta(string(r))
+						g1, s1 := gregexp.MustCompile(one), regexp.MustCompile(one)
+						if g1.Match(d.Content) != s1.Match(d.Content) {
+							deviates = true
+						}
+						if !g1.Match(d.Content) {
+							ms = nil
+						}
+					}
 				}
 				var rs [][2]int
 				for _, m := range ms {
@@ -272,17 +312,18 @@ func runC08(rec *kit.Recorder, c c08Case) error {
 			}
 			// known only if the regexp form reports exactly what the engine
 			// itself finds: any other wrong answer is still a violation
+			engineSays = fmt.Sprintf("; the engine itself, given %q, finds %v", "(?i)"+syntaxutil.RegexpString(disagreeing.Regexp), engine)
 			if deviates && sb == fmt.Sprint(engine) {
 				known = "C08-regexp-engine-fold"
 			}
 		}
 	}
-	return kit.FailKnown(known, "forms-disagree", "pattern %q contents %q chunk=%v: substring form %v, regexp form %v, simple-fold reference %v, stdlib engine %v", c.Pattern, c.Contents, c.Chunk, sa, sb, sr, ss)
+	return kit.FailKnown(known, "forms-disagree", "pattern %q contents %q chunk=%v: substring form %v, regexp form %v, simple-fold reference %v, stdlib engine %v%s", c.Pattern, c.Contents, c.Chunk, sa, sb, sr, ss, engineSays)
 }
 
 func TestVerif_C08(t *testing.T) {
 	rec := kit.Open(t, "C08",
-		"patterns of 3-8 runes over a fold-rich alphabet (orbits of 2, 3 and 4 members, case forms of different byte length, İ/ı; 30% with ASCII punctuation whose bit-0x20 partner is another punctuation byte; 15% plain-ASCII documents searched with patterns that may hold K / ſ) x 1-3 documents made of random fold-variants of the pattern, near misses (one rune replaced, punctuation by its partner), repeated three-rune windows (so that candidate trigrams vary) and noise; substring form vs a regexp form that cannot be distilled to a substring (literal followed by an empty match); non-trivial = a matched occurrence differs from the pattern in a non-ASCII rune; distinct by hash",
+		"patterns of 3-8 runes over a fold-rich alphabet (orbits of 2, 3 and 4 members, case forms of different byte length, İ/ı; 30% with ASCII punctuation whose bit-0x20 partner is another punctuation byte; 15% plain-ASCII documents searched with patterns that may hold K / ſ) x 1-3 documents made of random fold-variants of the pattern, near misses (one rune replaced, punctuation by its partner), repeated three-rune windows (so that candidate trigrams vary) and noise; substring form vs two regexp forms that cannot be distilled to a substring (literal followed by an empty match, which still uses the literal's trigrams; one literal per rune, which is decided by the regexp engine alone); non-trivial = a matched occurrence differs from the pattern in a non-ASCII rune; distinct by hash",
 		"both forms are searched through index.NewSearcher on one in-memory shard, in line and chunk mode",
 		"the simple-fold reference and the standard library engine are only used to classify a disagreement, not to decide it",
 	)
